@@ -350,41 +350,64 @@ Section Loop.
 End Loop.
 
 (* ------------------------------------------------------- kmeans level *)
-Definition Wk (d : nat) (X : list vec) (r : list vec * list nat * option Q) : Q :=
+Definition Wk {A} (d : nat) (X : list vec) (r : list vec * list nat * A) : Q :=
   wcss d X (km_labels r) (km_centers r).
 
+Lemma kmeans_means_core d k X labels maxiter delta :
+  km_centers (kmeans_core st d k X labels maxiter delta)
+  = mstep d X (km_labels (kmeans_core st d k X labels maxiter delta)) k.
+Proof. unfold kmeans_core. now apply kloop_means. Qed.
+
+Lemma kmeans_labels_valid_core d k X labels maxiter delta : (0 < k)%nat -> (1 <= maxiter)%nat ->
+  valid k X (km_labels (kmeans_core st d k X labels maxiter delta)).
+Proof. intros Hk Hm. destruct maxiter as [|m]; [lia|]. unfold kmeans_core. now apply kloop_valid_S. Qed.
+
+Lemma kmeans_step_mono_core d k X labels delta m : (0 < k)%nat -> (1 <= m)%nat ->
+  Wk d X (kmeans_core st d k X labels (S m) delta) <= Wk d X (kmeans_core st d k X labels m delta).
+Proof. intros Hk Hm. destruct m as [|m]; [lia|]. unfold kmeans_core, Wk.
+  apply (kloop_more_fuel_any d k X _ Hk m labels None None). Qed.
+
+Lemma kmeans_mono_core d k X labels delta : (0 < k)%nat -> forall m m', (1 <= m)%nat -> (m <= m')%nat ->
+  Wk d X (kmeans_core st d k X labels m' delta) <= Wk d X (kmeans_core st d k X labels m delta).
+Proof. intros Hk m m' H1 H2. induction H2 as [|m' H2 IH]; [apply Qle_refl|].
+  apply Qle_trans with (Wk d X (kmeans_core st d k X labels m' delta)); [|exact IH].
+  apply kmeans_step_mono_core; [exact Hk|lia]. Qed.
+
+Lemma kmeans_vs_initial_core d k X labels delta m : (0 < k)%nat -> valid k X labels ->
+  Wk d X (kmeans_core st d k X labels m delta) <= wcss d X labels (mstep d X labels k).
+Proof. intros Hk Hv. induction m as [|m IH].
+  - unfold kmeans_core, Wk. cbn [kloop km_labels km_centers fst snd]. apply Qle_refl.
+  - apply Qle_trans with (Wk d X (kmeans_core st d k X labels m delta)); [|exact IH].
+    unfold kmeans_core, Wk. apply (kloop_more_fuel d k X _ Hk m labels None None Hv). Qed.
+
+Lemma kmeans_J_bounds_core d k X labels maxiter delta j : (0 < k)%nat -> valid k X labels ->
+  km_J (kmeans_core st d k X labels maxiter delta) = Some j ->
+  Wk d X (kmeans_core st d k X labels maxiter delta) <= j.
+Proof. intros Hk Hv E. pose proof (kloop_J_bounds d k X (delta * vdata d X) Hk maxiter labels None Hv I) as H.
+  unfold kmeans_core in E. rewrite E in H. exact H. Qed.
+
+(* the same for _kmeans as returned (centres and labels are those of the loop) *)
 Lemma kmeans_means d k X labels maxiter delta :
   km_centers (kmeans st d k X labels maxiter delta)
   = mstep d X (km_labels (kmeans st d k X labels maxiter delta)) k.
-Proof. unfold kmeans. now apply kloop_means. Qed.
+Proof. exact (kmeans_means_core d k X labels maxiter delta). Qed.
 
 Lemma kmeans_labels_valid d k X labels maxiter delta : (0 < k)%nat -> (1 <= maxiter)%nat ->
   valid k X (km_labels (kmeans st d k X labels maxiter delta)).
-Proof. intros Hk Hm. destruct maxiter as [|m]; [lia|]. unfold kmeans. now apply kloop_valid_S. Qed.
-
-Lemma kmeans_step_mono d k X labels delta m : (0 < k)%nat -> (1 <= m)%nat ->
-  Wk d X (kmeans st d k X labels (S m) delta) <= Wk d X (kmeans st d k X labels m delta).
-Proof. intros Hk Hm. destruct m as [|m]; [lia|]. unfold kmeans, Wk.
-  apply (kloop_more_fuel_any d k X _ Hk m labels None None). Qed.
+Proof. exact (kmeans_labels_valid_core d k X labels maxiter delta). Qed.
 
 Lemma kmeans_mono d k X labels delta : (0 < k)%nat -> forall m m', (1 <= m)%nat -> (m <= m')%nat ->
   Wk d X (kmeans st d k X labels m' delta) <= Wk d X (kmeans st d k X labels m delta).
-Proof. intros Hk m m' H1 H2. induction H2 as [|m' H2 IH]; [apply Qle_refl|].
-  apply Qle_trans with (Wk d X (kmeans st d k X labels m' delta)); [|exact IH].
-  apply kmeans_step_mono; [exact Hk|lia]. Qed.
+Proof. exact (kmeans_mono_core d k X labels delta). Qed.
 
 Lemma kmeans_vs_initial d k X labels delta m : (0 < k)%nat -> valid k X labels ->
   Wk d X (kmeans st d k X labels m delta) <= wcss d X labels (mstep d X labels k).
-Proof. intros Hk Hv. induction m as [|m IH].
-  - unfold kmeans, Wk. cbn [kloop km_labels km_centers fst snd]. apply Qle_refl.
-  - apply Qle_trans with (Wk d X (kmeans st d k X labels m delta)); [|exact IH].
-    unfold kmeans, Wk. apply (kloop_more_fuel d k X _ Hk m labels None None Hv). Qed.
+Proof. exact (kmeans_vs_initial_core d k X labels delta m). Qed.
 
-Lemma kmeans_J_bounds d k X labels maxiter delta j : (0 < k)%nat -> valid k X labels ->
-  km_J (kmeans st d k X labels maxiter delta) = Some j ->
-  Wk d X (kmeans st d k X labels maxiter delta) <= j.
-Proof. intros Hk Hv E. pose proof (kloop_J_bounds d k X (delta * vdata d X) Hk maxiter labels None Hv I) as H.
-  unfold kmeans in E. rewrite E in H. exact H. Qed.
+(* the returned J is the inertia of the returned labels w.r.t. the returned centres *)
+Lemma kmeans_J_is_inertia d k X labels maxiter delta :
+  km_J (kmeans st d k X labels maxiter delta) = Wk d X (kmeans st d k X labels maxiter delta).
+Proof. reflexivity. Qed.
 
 Lemma api_k_range k n : (0 < n)%nat -> (1 <= api_k k n <= Z.of_nat n)%Z.
 Proof. intros H. unfold api_k. destruct (k <? 1)%Z eqn:E1; [apply Z.ltb_lt in E1|apply Z.ltb_ge in E1];
